@@ -5,8 +5,9 @@
 package sftp
 
 //@ func toFileMode
-//@   property C17
+//@   property C17, C16
 //@   function
+//@   ensures (result & os.ModeDir != 0) <==> (mode & 0170000 == 0040000)
 //@   ensures uint32(result) & 0777 == mode & 0777
 //@   ensures mode & 0170000 == 0040000 ==> result & os.ModeType == os.ModeDir
 //@   ensures mode & 0170000 == 0100000 ==> result & os.ModeType == 0
@@ -343,9 +344,15 @@ package sftp
 //@   ensures (f.c.useConcurrentWrites == false || len(b) <= f.c.maxPacket) && err == nil ==> written == len(b)
 //@   ensures (f.c.useConcurrentWrites == false || len(b) <= f.c.maxPacket) && written < len(b) ==> err != nil
 
+//@ ghost var rdSum int64
+
 //@ func (*File).writeToSequential
 //@   results written, err
-//@   loop 1 ghost cnt64
+//@   loop 1 ghost cnt64, rdSum
+//@   update after call (*File).readChunkAt#1: ghost.rdSum = ghost.rdSum + int64(ret0)
+//@   loop 1 invariant f.offset == old(f.offset) + (ghost.rdSum - old(ghost.rdSum))
+//@   ensures f.offset == old(f.offset) + (ghost.rdSum - old(ghost.rdSum))
+// (C12: the offset advances by what was read from the remote file, whatever the destination then accepted)
 //@   update after call (io.Writer).Write#1: ghost.cnt64 = ghost.cnt64 + int64(ret0)
 //@   loop 1 invariant written == ghost.cnt64 - old(ghost.cnt64)
 //@   ensures written == ghost.cnt64 - old(ghost.cnt64)
@@ -378,7 +385,8 @@ package sftp
 //@   ensures 0 <= k && k < len(entries) ==> entries[k] != nil
 //@   loop 1 invariant 0 <= k && k < len(entries) ==> entries[k] != nil
 //@   loop 2 invariant 0 <= k && k < len(entries) ==> entries[k] != nil
-//@   property C20, C16, C03, C05, C08
+//@   property C20, C16, C03, C05, C08, C06
+// (C06: this loop is the wire codec's decoder of SSH_FXP_NAME)
 //@   requires connOK(c)
 //@   update after call (*Client).opendir#1: ghost.rem = 0
 //@   loop 1 ghost rem
@@ -523,6 +531,8 @@ package sftp
 //@   ensures len(result) == p.blen
 
 //@ func (*File).WriteTo$3
+//@   assert before call (resChanPool).Put#*: ghost.wTaken - ghost.wDone == old(ghost.wTaken) - old(ghost.wDone)
+// (C03: a result channel goes back to the pool -- to be handed to the next request -- only after the reply it was waiting for has been taken from it)
 //@   loop 1 ghost wTaken, wDone
 //@   loop 1 invariant ghost.wTaken - ghost.wDone == old(ghost.wTaken) - old(ghost.wDone)
 //@   update after recv readCh#1: ghost.wTaken = ghost.wTaken + ite(ret1, 1, 0)
@@ -532,6 +542,8 @@ package sftp
 //@   requires pool != nil && pool.blen > 0 && pool.blen <= 0x7fffffff && pool.blen == chunkSize
 
 //@ func (*File).writeAtConcurrent$2
+//@   assert before call (resChanPool).Put#*: ghost.wTaken - ghost.wDone == old(ghost.wTaken) - old(ghost.wDone)
+// (C03: a result channel goes back to the pool -- to be handed to the next request -- only after the reply it was waiting for has been taken from it)
 //@   loop 1 ghost wTaken, wDone
 //@   loop 1 invariant ghost.wTaken - ghost.wDone == old(ghost.wTaken) - old(ghost.wDone)
 //@   update after recv workCh#1: ghost.wTaken = ghost.wTaken + ite(ret1, 1, 0)
@@ -544,6 +556,8 @@ package sftp
 //@   loop 1 invariant attr(errCh, lo) == attr(workCh, lo) && attr(errCh, hi) == attr(workCh, hi)
 
 //@ func (*File).readFromWithConcurrency$2
+//@   assert before call (resChanPool).Put#*: ghost.wTaken - ghost.wDone == old(ghost.wTaken) - old(ghost.wDone)
+// (C03: a result channel goes back to the pool -- to be handed to the next request -- only after the reply it was waiting for has been taken from it)
 //@   loop 1 ghost wTaken, wDone
 //@   loop 1 invariant ghost.wTaken - ghost.wDone == old(ghost.wTaken) - old(ghost.wDone)
 //@   update after recv workCh#1: ghost.wTaken = ghost.wTaken + ite(ret1, 1, 0)
@@ -556,6 +570,9 @@ package sftp
 //@   loop 1 invariant attr(errCh, lo) == attr(workCh, lo)
 
 //@ func (*File).Sync
+//@   assert before call (*Client).HasExtension#1: f.handle != "" && locked(&f.mu)
+//@   ensures old(f.handle) == "" ==> result == os.ErrClosed
+// (C12: a closed File answers os.ErrClosed before anything else is looked at, as os.File does)
 //@   update after call (*Client).HasExtension#1: ghost.syncOK = ret1 && ret0 == "1"
 //@   assert before call (*Client).nextID#1: ghost.syncOK
 //@   assert before call (*clientConn).sendPacket#1: ghost.syncOK && typeis(arg3, *sshFxpFsyncPacket) && arg3.(*sshFxpFsyncPacket).Handle == f.handle && arg3.(*sshFxpFsyncPacket).ID == id
@@ -853,6 +870,8 @@ package sftp
 //  wrappers, keep their kind; SFTP status codes returned by handlers are passed through as given)
 
 //@ func handlePacket
+//@   assert before call statusFromError#13: typeis(arg1, *os.PathError) && arg1.(*os.PathError).Err == syscall.ENOTDIR && arg1.(*os.PathError).Path == lp
+// (C05: OPENDIR of something that exists but is no directory fails the way os does, with ENOTDIR -- not as "no such file")
 //@   assert before call (*packetManager).readyPacket#1: typeis(arg1.responsePacket, *sshFxpDataPacket) ==> len(arg1.responsePacket.(*sshFxpDataPacket).Data) == int(arg1.responsePacket.(*sshFxpDataPacket).Length)
 // (C18 / C06: a DATA response carries exactly Length bytes -- nothing of the buffer behind what was read)
 //@   assert before call statusFromError#15: !ok ==> arg1 != nil
@@ -1170,6 +1189,10 @@ package sftp
 //@   assert before send pktChan#1: pkt != nil && (err == nil || isErr(err, errUnknownExtendedPacket))
 
 //@ func (*RequestServer).serveLoop
+//@   ensures result != nil
+// (C11: the loop ends only on an error -- the transport's, or the decode error of a malformed packet -- and returns
+//  that error: the end-of-session sweep needs it to notify the open handles' objects through TransferError)
+//@   property C11
 //@   ensures ghost.rxOK - ghost.fwd == old(ghost.rxOK) - old(ghost.fwd)
 // (also on the way out: a packet that names an unknown extension is forwarded, not taken for a malformed one)
 //@   loop 1 ghost rxOrder
@@ -1445,7 +1468,21 @@ package sftp
 
 //@ ghost var ctxDone bool
 
+//@ ghost var clW error
+//@ ghost var clRW error
+//@ ghost var clRD error
+
 //@ func (*Request).close
+//@   update before call (*state).closeListerAt#1: ghost.clW = nil
+//@   update before call (*state).closeListerAt#1: ghost.clRW = nil
+//@   update before call (*state).closeListerAt#1: ghost.clRD = nil
+//@   update after call (io.Closer).Close#1: ghost.clW = ret
+//@   update after call (io.Closer).Close#2: ghost.clRW = ret
+//@   update after call (io.Closer).Close#3: ghost.clRD = ret
+//@   ensures result == nil ==> ghost.clW == nil && ghost.clRW == nil && ghost.clRD == nil
+// (C10: CLOSE is answered OK only if every Close of the handle's objects succeeded: the error of each of them reaches
+//  the client, the writer's first)
+//@   ensures ghost.clW != nil ==> result == ghost.clW || result != nil
 //@   property C07, C11
 //@   update before call (*state).closeListerAt#1: ghost.ctxDone = false
 //@   update after call (*Request).close$1#1: ghost.ctxDone = true
@@ -1550,6 +1587,8 @@ package sftp
 //@   ensures typeis(result, *sshFxpDataPacket) || typeis(result, *sshFxpStatusPacket)
 
 //@ func filecmd
+//@   assert before call (FileCmder).Filecmd#*: r.Method != "StatVFS" && r.Method != "PosixRename"
+// (C10: statvfs goes to the optional StatVFSFileCmder or is refused as unsupported, never to the generic Filecmd)
 //@   ensures ghost.hclosed == old(ghost.hclosed)
 //@   assert before call (io.Closer).Close#*: false
 //@   property C14
@@ -1659,8 +1698,13 @@ package sftp
 //@   assert before call (*packetManager).readyPacket#1: arg1.responsePacket.id() == ghost.curID
 //@   assert before call (*Request).call#3: arg0.Method == "PosixRename" && arg0.Filepath == cleanPathWithBase(rs.startDirectory, pkt.Oldpath) && arg0.Target == cleanPathWithBase(rs.startDirectory, pkt.Newpath)
 //@   assert before call (*Request).call#4: arg0.Method == "StatVFS" && arg0.Filepath == cleanPathWithBase(rs.startDirectory, pkt.Path)
-//@   assert before call (*Request).call#1: arg0.Method == "Stat"
-//@   assert before call (*Request).call#2: arg0.Method == "Setstat"
+//@   assert before call (*Request).call#1: arg0.Method == "Stat" && fresh(arg0)
+//@   assert before call (*Request).call#2: arg0.Method == "Setstat" && fresh(arg0)
+// (C15: FSTAT / FSETSTAT are served by a Request of their own; the Request of the open handle, which the read / write
+//  workers use concurrently, is not touched)
+//@   assert before call (RealPathFileLister).RealPath#1: arg1 == pkt.getPath()
+//@   assert before call (legacyRealPathFileLister).RealPath#1: arg1 == pkt.getPath()
+// (C10: the argument of a custom real-path resolver is passed through verbatim)
 //@   ensures result == nil
 //@   ensures ghost.ready - ghost.taken == old(ghost.ready) - old(ghost.taken)
 
@@ -1815,8 +1859,15 @@ package sftp
 //@ ghost var bSent int
 //@ ghost var bRepl int
 
+//@ ghost var bClosed bool
+
 //@ func (*clientConn).broadcastErr
 //@   property C20, C04
+//@   update after call (*sync.Mutex).Lock#1: ghost.bClosed = false
+//@   update after call close#1: ghost.bClosed = true
+//@   ensures ghost.bClosed && c.err == err
+// (C04: the loss is latched -- the error recorded, closed closed -- on every call, also when nothing is in flight:
+//  a later dispatch must fail and Wait must return)
 //@   requires c != nil && c.inflight != nil
 //@   loop 1 ghost bSent, bRepl
 //@   loop 1 invariant ghost.bSent == ghost.bRepl && c.inflight != nil && locked(&c.Mutex)
@@ -1836,8 +1887,14 @@ package sftp
 // [lo, hi] of the file that the transfer covers. They are fixed when the channel is made.
 
 //@ ghost var gmin int64
+//@ ghost var gminErr error
 
 //@ func (*File).readAt
+//@   assert before call (*File).readChunkAt#1: arg1 == nil
+// (C03: a read that fits one packet waits on a channel of its own, made for this call: concurrent ReadAt calls on one
+//  File -- they share only the read lock -- never wait on the same channel)
+//@   channel cancel closeonce
+// (C20: cancel is closed at most once, whatever the number and order of failing chunk replies: close of a closed channel panics)
 //@   update after make errCh#1: ghost.errOpen = true
 //@   loop 2 ghost errOpen
 //@   update after recv errCh#1: ghost.errOpen = ret1
@@ -1849,9 +1906,14 @@ package sftp
 //@   assume after make workCh#1: attr(ret, lo) == off && attr(ret, hi) == off + int64(len(b))
 //@   channel errCh invariant m.err != nil && attr(ch, lo) <= m.off && m.off <= attr(ch, hi)
 //@   update after make errCh#1: ghost.gmin = math.MaxInt64
+//@   update after make errCh#1: ghost.gminErr = nil
 //@   loop 2 ghost gmin
+//@   update after recv errCh#1: ghost.gminErr = ite(ret1 && ret0.off <= ghost.gmin, ret0.err, ghost.gminErr)
 //@   update after recv errCh#1: ghost.gmin = ite(ret1, min(ghost.gmin, ret0.off), ghost.gmin)
 //@   loop 2 invariant firstErr.off == ghost.gmin && (firstErr.err == nil <==> ghost.gmin == math.MaxInt64)
+//@   loop 2 ghost gminErr
+//@   loop 2 invariant firstErr.err == ghost.gminErr
+// (C13: the error kept is the one that came with the lowest failing offset, whatever the order of arrival)
 //@   loop 2 invariant firstErr.err != nil ==> off <= firstErr.off && firstErr.off <= off + int64(len(b))
 //@   loop 2 invariant attr(errCh, lo) == off && attr(errCh, hi) == off + int64(len(b))
 //@   ensures f.handle == "" ==> n == 0 && err == os.ErrClosed
@@ -1863,6 +1925,8 @@ package sftp
 //  the start, within [0, len(b)])
 
 //@ func (*File).readAt$2
+//@   assert before call (resChanPool).Put#*: ghost.wTaken - ghost.wDone == old(ghost.wTaken) - old(ghost.wDone)
+// (C03: a result channel goes back to the pool -- to be handed to the next request -- only after the reply it was waiting for has been taken from it)
 //@   loop 1 ghost wTaken, wDone
 //@   loop 1 invariant ghost.wTaken - ghost.wDone == old(ghost.wTaken) - old(ghost.wDone)
 //@   update after recv workCh#1: ghost.wTaken = ghost.wTaken + ite(ret1, 1, 0)
@@ -1907,6 +1971,8 @@ package sftp
 //@ ghost var wtEnd int64
 
 //@ func (*File).writeAtConcurrent
+//@   channel cancel closeonce
+// (C20: cancel is closed at most once, whatever the number and order of failing chunk replies: close of a closed channel panics)
 //@   update after make errCh#1: ghost.errOpen = true
 //@   loop 2 ghost errOpen
 //@   update after recv errCh#1: ghost.errOpen = ret1
@@ -1918,18 +1984,27 @@ package sftp
 //@   assume after make workCh#1: attr(ret, lo) == off && attr(ret, hi) == off + int64(len(b))
 //@   channel errCh invariant m.err != nil && attr(ch, lo) <= m.off && m.off <= attr(ch, hi)
 //@   update after make errCh#1: ghost.gmin = math.MaxInt64
+//@   update after make errCh#1: ghost.gminErr = nil
 //@   loop 2 ghost gmin
+//@   update after recv errCh#1: ghost.gminErr = ite(ret1 && ret0.off <= ghost.gmin, ret0.err, ghost.gminErr)
 //@   update after recv errCh#1: ghost.gmin = ite(ret1, min(ghost.gmin, ret0.off), ghost.gmin)
 //@   loop 2 invariant firstErr.off == ghost.gmin && (firstErr.err == nil <==> ghost.gmin == math.MaxInt64)
+//@   loop 2 ghost gminErr
+//@   loop 2 invariant firstErr.err == ghost.gminErr
+// (C13: the error kept is the one that came with the lowest failing offset, whatever the order of arrival)
 //@   loop 2 invariant firstErr.err != nil ==> off <= firstErr.off && firstErr.off <= off + int64(len(b))
 //@   loop 2 invariant attr(errCh, lo) == off && attr(errCh, hi) == off + int64(len(b))
 //@   ensures 0 <= n && n <= len(b)
 //@   ensures err == nil ==> n == len(b)
 //@   ensures err != nil ==> n == int(ghost.gmin - off)
+//@   ensures err != nil ==> err == ghost.gminErr
 //@   ensures f.offset == old(f.offset) && f.handle == old(f.handle)
 
 //@ func (*File).WriteTo
 //@   property C01, C12, C13
+//@   assert before call newBufPool#1: isRegular(fileStat.Mode) && fileStat.Size > uint64(f.c.maxPacket) && !f.c.disableConcurrentReads
+// (C01: the fixed-stride concurrent download is taken only for regular files larger than a packet: only those answer
+//  a READ short exactly at the end of the file; everything else is refilled chunk by chunk)
 //@   requires fileOK(f) && w != nil
 //@   assume after make writeCh#1: true
 //@   update after make writeCh#1: ghost.wtEnd = f.offset
@@ -2047,6 +2122,8 @@ package sftp
 //@ ghost var dOff int64
 
 //@ func (*File).readFromWithConcurrency
+//@   channel cancel closeonce
+// (C20: cancel is closed at most once, whatever the number and order of failing chunk replies: close of a closed channel panics)
 //@   assert before call (*sync.WaitGroup).Add#1: arg1 >= 1
 //@   update after make errCh#1: ghost.errOpen = true
 //@   loop 2 ghost errOpen
@@ -2058,9 +2135,14 @@ package sftp
 //@   assume after make workCh#1: attr(ret, lo) == f.offset
 //@   channel errCh invariant m.err != nil && attr(ch, lo) <= m.off && m.off < math.MaxInt64
 //@   update after make errCh#1: ghost.gmin = math.MaxInt64
+//@   update after make errCh#1: ghost.gminErr = nil
 //@   loop 2 ghost gmin
+//@   update after recv errCh#1: ghost.gminErr = ite(ret1 && ret0.off <= ghost.gmin, ret0.err, ghost.gminErr)
 //@   update after recv errCh#1: ghost.gmin = ite(ret1, min(ghost.gmin, ret0.off), ghost.gmin)
 //@   loop 2 invariant firstErr.off == ghost.gmin && (firstErr.err == nil <==> ghost.gmin == math.MaxInt64)
+//@   loop 2 ghost gminErr
+//@   loop 2 invariant firstErr.err == ghost.gminErr
+// (C13: the error kept is the one that came with the lowest failing offset, whatever the order of arrival)
 //@   loop 2 invariant firstErr.err != nil ==> old(f.offset) <= firstErr.off
 //@   loop 2 invariant attr(errCh, lo) == old(f.offset) && f.offset == old(f.offset) && f.handle == old(f.handle) && f != nil
 //@   ensures old(f.handle) == "" ==> err == os.ErrClosed && read == 0 && f.offset == old(f.offset)
@@ -2266,8 +2348,16 @@ package sftp
 //@   assert before call (*Client).RemoveDirectory#1: arg1 == path
 //@   ensures old(true) ==> true
 
+//@ ghost var gName string
+//@ ghost var gJoined string
+
 //@ func (*Client).glob
 //@   property C05
+//@   update after call (os.FileInfo).Name#*: ghost.gName = ret
+//@   assert before call Join#1: len(arg0) == 2 && arg0[0] == dir && arg0[1] == ghost.gName
+//@   update after call Join#1: ghost.gJoined = ret
+//@   assert before call append#*: arg1[0] == ghost.gJoined
+// (C05: a match is the directory joined with the entry's name by Join, i.e. normalised the way filepath.Glob's are)
 //@   results m, e
 //@   requires connOK(c)
 //@   ensures len(m) >= len(matches)
@@ -2545,7 +2635,7 @@ package sftp
 //@   assert before call time.Unix#1: arg0 == int64(fs.Atime) && arg1 == 0
 
 //@ func (*FileStat).FileMode
-//@   property C17
+//@   property C17, C16
 //@   requires fs != nil
 //@   ensures result == toFileMode(fs.Mode)
 //@   modifies nothing
@@ -2662,3 +2752,134 @@ package sftp
 //@   assert before call (*Client).setstat#1: arg1 == path && arg2 == sshFileXferAttrACmodTime && attrs.Atime == uint32(ghost.t1) && attrs.Mtime == uint32(ghost.t2)
 // (the first word of the time pair is the access time, the second the modification time, as in the draft's ATTRS block;
 //  the two Unix() calls are those of atime and mtime in this order)
+
+// ---------------------------------------------------------------------------
+// round 4 of seeded changes
+
+//@ ghost var wrShut bool
+
+// Client construction: the defaults a Client is built with when no option changes them (one request carries at most
+// 32768 payload bytes, which is what makes a 32 KiB read or write one packet), and: every refusal of the handshake
+// closes the writer to the peer before the error is returned.
+//@ func newClientPipe
+//@   property C15, C19, C04
+//@   requires rd != nil && wr != nil
+//@   loop 1 invariant len(opts) == 0 ==> c.maxPacket == 32768 && c.maxConcurrentRequests == 64
+//@   loop 1 assume opts[rangeindex + 1] != nil || rangeindex + 1 >= len(opts)
+//@   loop 1 assume c != nil && ccOK(&c.clientConn) && c.ext != nil && c.Reader == rd && c.WriteCloser == wr && (c.alloc == nil || c.alloc.used != nil)
+// (assumed of options: each is a non-nil function that leaves the connection's reader, writer and tables in place --
+// they are unexported fields, and the options of this package set only packet sizes and flags)
+//@   assert before call (*Client).sendInit#1: len(opts) == 0 ==> c.maxPacket == 32768 && c.maxConcurrentRequests == 64
+//@   update before call (*Client).sendInit#1: ghost.wrShut = false
+//@   update after call (io.WriteCloser).Close#2: ghost.wrShut = true
+//@   update after call (io.WriteCloser).Close#3: ghost.wrShut = true
+//@   assert before call (io.WriteCloser).Close#1: arg0 == wr
+//@   assert before call (io.WriteCloser).Close#2: arg0 == wr
+//@   assert before call (io.WriteCloser).Close#3: arg0 == wr
+//@   assert before call fmt.Errorf#1: ghost.wrShut
+//@   assert before call fmt.Errorf#2: ghost.wrShut
+//@   update before call (*Client).recvVersion#1: ghost.wrShut = false
+
+// INIT / VERSION encoders of the wire codec: version word, then for every extension its name and then its data
+// (draft-ietf-secsh-filexfer-02 section 4: "extension_name" string, "extension_data" string).
+// (precondition stated per iteration instead of with a quantifier: at most 65536 extensions, names and data of at most 1 MiB)
+
+//@ func (*sshFxVersionPacket).MarshalBinary
+//@   property C06, C19
+//@   requires p != nil && len(p.Extensions) <= 65536
+//@   loop 1 invariant 9 <= l && l <= 9 + (rangeindex + 1) * 0x200008 && rangeindex < len(p.Extensions) && rangeindex >= -1
+//@   loop 1 assume rangeindex + 1 >= len(p.Extensions) || (len(p.Extensions[rangeindex + 1].Name) <= 0x100000 && len(p.Extensions[rangeindex + 1].Data) <= 0x100000)
+//@   loop 2 invariant len(b) >= 9
+//@   assert before call append#1: arg1[0] == sshFxpVersion
+//@   assert before call marshalUint32#1: arg1 == p.Version
+//@   assert before call marshalString#1: arg1 == p.Extensions[rangeindex + 1].Name
+//@   assert before call marshalString#2: arg1 == p.Extensions[rangeindex + 1].Data
+//@   ensures len(result0) >= 9 && result1 == nil
+
+//@ func (*sshFxInitPacket).MarshalBinary
+//@   property C06, C19
+//@   requires p != nil && len(p.Extensions) <= 65536
+//@   loop 1 invariant 9 <= l && l <= 9 + (rangeindex + 1) * 0x200008 && rangeindex < len(p.Extensions) && rangeindex >= -1
+//@   loop 1 assume rangeindex + 1 >= len(p.Extensions) || (len(p.Extensions[rangeindex + 1].Name) <= 0x100000 && len(p.Extensions[rangeindex + 1].Data) <= 0x100000)
+//@   loop 2 invariant len(b) >= 9
+//@   assert before call append#1: arg1[0] == sshFxpInit
+//@   assert before call marshalUint32#1: arg1 == p.Version
+//@   assert before call marshalString#1: arg1 == p.Extensions[rangeindex + 1].Name
+//@   assert before call marshalString#2: arg1 == p.Extensions[rangeindex + 1].Data
+//@   ensures len(result0) >= 9 && result1 == nil
+
+// The os.FileInfo a client builds from structured attributes: IsDir is "the type bits say directory" (S_IFDIR,
+// 0040000), not "the directory bit is among the type bits" (sockets and block devices contain it too).
+//@ func (*fileInfo).IsDir
+//@   property C17, C16
+//@   requires fi != nil && fi.stat != nil
+//@   ensures result == (fi.stat.Mode & 0xF000 == 0x4000)
+
+//@ func (io/fs.FileMode).IsDir
+//@   trusted
+//@   function
+//@   ensures result == (m & os.ModeDir != 0)
+
+// Pools of the concurrent transfers: the depth is a channel capacity (a negative one panics in make).
+//@ func newBufPool
+//@   property C20, C01
+//@   requires depth >= 0
+//@   ensures result != nil && result.blen == bufLen && result.ch != nil && cap(result.ch) == depth && fresh(result)
+
+//@ func newResChanPool
+//@   property C20, C03
+//@   requires depth >= 0
+
+// The attribute block of the wire codec, value by value (draft section 5): size, uid, gid, permissions, atime,
+// mtime, extended count, then (type, data) pairs -- each taken from the field of that name, under the flag of that name.
+//@ extend func marshalFileStat
+//@   property C16, C17
+//@   assert before call marshalUint64#1: arg1 == fileStat.Size && flags & sshFileXferAttrSize != 0
+//@   assert before call marshalUint32#1: arg1 == fileStat.UID && flags & sshFileXferAttrUIDGID != 0
+//@   assert before call marshalUint32#2: arg1 == fileStat.GID && flags & sshFileXferAttrUIDGID != 0
+//@   assert before call marshalUint32#3: arg1 == fileStat.Mode && flags & sshFileXferAttrPermissions != 0
+//@   assert before call marshalUint32#4: arg1 == fileStat.Atime && flags & sshFileXferAttrACmodTime != 0
+//@   assert before call marshalUint32#5: arg1 == fileStat.Mtime && flags & sshFileXferAttrACmodTime != 0
+//@   assert before call marshalUint32#6: arg1 == uint32(len(fileStat.Extended)) && flags & sshFileXferAttrExtended != 0
+//@   assert before call marshalString#1: arg1 == fileStat.Extended[rangeindex + 1].ExtType
+//@   assert before call marshalString#2: arg1 == fileStat.Extended[rangeindex + 1].ExtData
+
+// The attribute words of OPEN / SETSTAT / FSETSTAT are selected by the attribute flags the header announces (p.Flags),
+// not by any other flag word of the packet.
+//@ extend func (*sshFxpOpenPacket).marshalPacket
+//@   assert before call marshalFileStat#*: arg0 == nil && arg1 == p.Flags
+//@   assert before call marshalFileStat#2: arg2 == p.Attrs.(*FileStat)
+//@ extend func (*sshFxpSetstatPacket).marshalPacket
+//@   assert before call marshalFileStat#*: arg0 == nil && arg1 == p.Flags
+//@   assert before call marshalFileStat#2: arg2 == p.Attrs.(*FileStat)
+//@ extend func (*sshFxpFsetstatPacket).marshalPacket
+//@   assert before call marshalFileStat#*: arg0 == nil && arg1 == p.Flags
+//@   assert before call marshalFileStat#2: arg2 == p.Attrs.(*FileStat)
+
+// The os-backed server's three doors to the file system (server_posix.go): stat follows a final symbolic link
+// (OPENDIR of a link to a directory lists the directory), lstat does not, openfile opens what it is asked to.
+//@ func (*Server).stat
+//@   property C16, C05
+//@   assert before call os.Stat#1: arg0 == name
+//@   ensures result1 == nil ==> result0 != nil
+//@   modifies nothing
+//@ func (*Server).lstat
+//@   property C05
+//@   assert before call os.Lstat#1: arg0 == name
+//@   ensures result1 == nil ==> result0 != nil
+//@   modifies nothing
+//@ func (*Server).openfile
+//@   property C05, C09
+//@   assert before call os.OpenFile#1: arg0 == path && arg1 == flag && arg2 == mode
+//@   ensures result1 == nil ==> result0 != nil
+//@   ensures mutatingOpenFlag(flag) ==> ghost.fsWrites == old(ghost.fsWrites) + 1
+//@   ensures !mutatingOpenFlag(flag) ==> ghost.fsWrites == old(ghost.fsWrites)
+//@   modifies ghost.fsWrites
+
+// The DATA reply as every server sends it (the ordered response hides marshalPacket, so this in-place form is the one
+// used): room for the 13 header bytes is made by append, whatever spare capacity the payload's buffer has -- a page
+// of the allocator has none.
+//@ func (*sshFxpDataPacket).MarshalBinary
+//@   property C18, C06, C01
+//@   requires p != nil && int(p.Length) <= len(p.Data) && len(p.Data) <= 0x7fffffff
+//@   ensures result1 == nil && len(result0) == len(old(p.Data)) + 13
